@@ -1472,6 +1472,9 @@ def _defaults_unit(ip: Interp, th: ControlTheory):
                 ok = False
             elif isinstance(val, str) and val in ("inf", "DEFAULT_TASK_GROUP", "CMD", "OMIT_PARAMS_DEFAULT"):
                 ok = isinstance(d, _ast.Name) and d.id == val
+            elif val == ():
+                # an empty collection, however it is spelled (only membership / unpacking is ever applied to it)
+                ok = (isinstance(d, (_ast.Tuple, _ast.List)) and not d.elts) or (isinstance(d, _ast.Call) and isinstance(d.func, _ast.Name) and d.func.id in ("frozenset", "set", "tuple", "list") and not d.args and not d.keywords)
             else:
                 try:
                     ok = _ast.literal_eval(d) == val and type(_ast.literal_eval(d)) is type(val)
@@ -1480,6 +1483,26 @@ def _defaults_unit(ip: Interp, th: ControlTheory):
             ip.require(st, f"defaults:{q.split('.', 1)[1]}({name}={val!r})", z3.BoolVal(bool(ok)), P, meta={"found": _ast.unparse(d) if d is not None else "no default"})
     for mod, consts in MODULE_CONSTANTS.items():
         for name, val in consts.items():
+            if name == "OMIT_PARAMS_DEFAULT":
+                # what matters is the membership test `param.name not in omit`: a tuple / list / set / frozenset holding exactly
+                # "self" (a plain string would turn it into a substring test: parameters named s, e, l, f, el, ... vanish)
+                expr = None
+                for n_ in ip.repo.modules[mod].body:
+                    if isinstance(n_, (_ast.Assign, _ast.AnnAssign)):
+                        tg = n_.targets[0] if isinstance(n_, _ast.Assign) else n_.target
+                        if isinstance(tg, _ast.Name) and tg.id == name and n_.value is not None:
+                            expr = n_.value
+                inner = expr
+                if isinstance(inner, _ast.Call) and isinstance(inner.func, _ast.Name) and inner.func.id in ("frozenset", "set", "tuple", "list") and len(inner.args) == 1 and not inner.keywords:
+                    inner = inner.args[0]
+                if isinstance(inner, (_ast.Tuple, _ast.List, _ast.Set)) and all(isinstance(e_, _ast.Constant) for e_ in inner.elts):
+                    ok = {e_.value for e_ in inner.elts} == {"self"}
+                elif isinstance(inner, _ast.Constant):
+                    ok = False
+                else:
+                    raise Unsupported(f"{mod}.{name} is neither a display of constants nor a constant: {_ast.unparse(expr) if expr is not None else 'not assigned'}")
+                ip.require(st, f"constants:{mod}.{name}:a-collection-(not-a-string)-holding-exactly-'self'", z3.BoolVal(ok), P, meta={"found": _ast.unparse(expr)})
+                continue
             ip.require(st, f"constants:{mod}.{name}=={val!r}", z3.BoolVal(ip.repo.consts.get(mod, {}).get(name) == val), P, meta={"found": repr(ip.repo.consts.get(mod, {}).get(name))})
 
 
